@@ -22,6 +22,12 @@ Lemma source_badconn_compared_by_identity_and_query_errors_unwrapped : sh_err_id
 Proof. reflexivity. Qed.
 Lemma source_packet_error_unwrapped : sh_err_identity_packet code_shape = true.
 Proof. reflexivity. Qed.
+Lemma source_client_close_closes_out_queue : sh_cc_closes_out code_shape = true.
+Proof. reflexivity. Qed.
+Lemma source_close_connection_closes_out_queue : sh_sc_closes_out code_shape = true.
+Proof. reflexivity. Qed.
+Lemma source_sweep_closes_out_queue : sh_sweep_closes_out code_shape = true.
+Proof. reflexivity. Qed.
 Lemma code_shape_intended : code_shape = intended.
 Proof. reflexivity. Qed.
 
@@ -302,6 +308,248 @@ Proof.
       split; [reflexivity|]. split; [exact Bq|]. split; [exact Rq|]. split; assumption.
 Qed.
 
+(* ------------------------------------------------------------------------------------------------ one out-queue *)
+
+Definition oinv0 (o : oq) : Prop := o_sent o = o_ackd o ++ o_q o /\ o_has o = nonempty_l (o_q o).
+Definition oinv (o : oq) : Prop := oinv0 o /\ (o_parked o <> None -> o_has o = true /\ o_closed o = false).
+
+Lemma oinv_new : oinv o_new.
+Proof. unfold oinv, oinv0, o_new; cbn. repeat split; congruence. Qed.
+
+Lemma oinv_oinv0 o : oinv o -> oinv0 o.
+Proof. intros [H _]; exact H. Qed.
+
+Lemma nonempty_l_false {A} (l : list A) : nonempty_l l = false -> l = [].
+Proof. destruct l; cbn; congruence. Qed.
+
+Lemma o_enqueue_inv0 o d : oinv0 o -> oinv0 (o_enqueue o d).
+Proof. intros [A H]. split; cbn; [rewrite A, app_assoc; reflexivity|destruct (o_q o); reflexivity]. Qed.
+
+Lemma o_dequeue_inv0 o : oinv0 o -> oinv0 (o_dequeue o).
+Proof.
+  intros [A H]. unfold o_dequeue. destruct (o_q o) as [|h r] eqn:Q; [split; [rewrite A, Q; reflexivity|rewrite H, Q; reflexivity]|].
+  split; cbn; [rewrite A, <- app_assoc; reflexivity|reflexivity].
+Qed.
+
+Lemma o_check_inv0 o : o_sent o = o_ackd o ++ o_q o -> oinv0 (o_check o).
+Proof. intros A. split; cbn; auto. Qed.
+
+Lemma o_dequeue_fields o : o_closed (o_dequeue o) = o_closed o /\ o_parked (o_dequeue o) = o_parked o.
+Proof. unfold o_dequeue. destruct (o_q o); cbn; auto. Qed.
+
+(* the last wait of Write: parks only on an open queue that holds chunks *)
+Lemma o_final_inv o n : oinv0 o -> o_parked o = None -> oinv (fst (o_final o n)).
+Proof.
+  intros I P. unfold o_final, o_wait. destruct (o_has o) eqn:H; cbn [negb].
+  - destruct (o_closed o) eqn:C; cbn [fst].
+    + split; [exact I|rewrite P; congruence].
+    + destruct I as [A Hh]. split; [split; cbn; auto|]. cbn. intros _. auto.
+  - cbn [fst]. split; [exact I|rewrite P; congruence].
+Qed.
+
+Lemma o_final_closed o n : o_closed (fst (o_final o n)) = o_closed o.
+Proof. unfold o_final. destruct (o_wait o); reflexivity. Qed.
+
+Lemma o_final_no_park_when_closed o n : o_closed o = true -> o_parked (fst (o_final o n)) = o_parked o /\ forall b, snd (o_final o n) <> WBlock b.
+Proof. intros C. unfold o_final, o_wait. rewrite C. destruct (o_has o); cbn; split; auto; discriminate. Qed.
+
+Lemma o_final_done o n m : oinv0 o -> snd (o_final o n) = WDone m -> m = n /\ o_q (fst (o_final o n)) = [] /\ o_sent (fst (o_final o n)) = o_ackd (fst (o_final o n)).
+Proof.
+  intros [A H]. unfold o_final, o_wait. destruct (o_has o) eqn:Hh; cbn [negb].
+  - destruct (o_closed o); cbn; discriminate.
+  - cbn. intros E. inversion E. symmetry in H. apply nonempty_l_false in H. rewrite A, H, app_nil_r. auto.
+Qed.
+
+Lemma o_final_closed_outcome o n m : snd (o_final o n) = WClosed m -> o_closed o = true.
+Proof. unfold o_final, o_wait. destruct (o_has o); cbn; [|discriminate]. destruct (o_closed o); cbn; [auto|discriminate]. Qed.
+
+Lemma o_fill_inv o d sent : oinv0 o -> o_parked o = None -> oinv (fst (o_fill o d sent)).
+Proof.
+  intros I P. unfold o_fill. destruct d as [|x d'].
+  - apply o_final_inv; [apply o_check_inv0, I|exact P].
+  - destruct sent as [[|]|].
+    + apply o_final_inv; [apply o_dequeue_inv0, o_enqueue_inv0, I|]. rewrite (proj2 (o_dequeue_fields _)). exact P.
+    + cbn [fst]. split; [apply o_enqueue_inv0, I|]. cbn. rewrite P. congruence.
+    + apply o_final_inv; [apply o_enqueue_inv0, I|exact P].
+Qed.
+
+Lemma o_fill_closed o d sent : o_closed (fst (o_fill o d sent)) = o_closed o.
+Proof.
+  unfold o_fill. destruct d; [rewrite o_final_closed; reflexivity|].
+  destruct sent as [[|]|]; [rewrite o_final_closed, (proj1 (o_dequeue_fields _))| |rewrite o_final_closed]; reflexivity.
+Qed.
+
+Lemma o_fill_no_park_when_closed o d sent : o_closed o = true -> o_parked o = None ->
+  o_parked (fst (o_fill o d sent)) = None /\ forall b, snd (o_fill o d sent) <> WBlock b.
+Proof.
+  intros C P. unfold o_fill. destruct d.
+  - destruct (o_final_no_park_when_closed (o_check o) 0 C) as [A B]. split; [rewrite A; exact P|exact B].
+  - destruct sent as [[|]|].
+    + destruct (o_final_no_park_when_closed (o_dequeue (o_enqueue o (n :: d))) (List.length (n :: d))) as [A B].
+      { rewrite (proj1 (o_dequeue_fields _)). exact C. }
+      split; [rewrite A, (proj2 (o_dequeue_fields _)); exact P|exact B].
+    + cbn. split; [exact P|discriminate].
+    + destruct (o_final_no_park_when_closed (o_enqueue o (n :: d)) (List.length (n :: d)) C) as [A B]. split; [rewrite A; exact P|exact B].
+Qed.
+
+(* a Write reports success only when the queue is empty again: every chunk ever queued has been acknowledged *)
+Lemma o_fill_done o d sent m : oinv0 o -> snd (o_fill o d sent) = WDone m ->
+  m = List.length d /\ o_q (fst (o_fill o d sent)) = [] /\ o_sent (fst (o_fill o d sent)) = o_ackd (fst (o_fill o d sent)).
+Proof.
+  intros I. unfold o_fill. destruct d as [|x d'].
+  - intros E. apply o_final_done in E; [exact E|apply o_check_inv0, I].
+  - destruct sent as [[|]|].
+    + intros E. apply o_final_done in E; [exact E|apply o_dequeue_inv0, o_enqueue_inv0, I].
+    + cbn. discriminate.
+    + intros E. apply o_final_done in E; [exact E|apply o_enqueue_inv0, I].
+Qed.
+
+Lemma o_fill_closed_outcome o d sent m : snd (o_fill o d sent) = WClosed m -> o_closed o = true.
+Proof.
+  unfold o_fill. destruct d; [intros E; apply o_final_closed_outcome in E; exact E|].
+  destruct sent as [[|]|]; [|cbn; discriminate|]; intros E; apply o_final_closed_outcome in E; [rewrite (proj1 (o_dequeue_fields _)) in E|]; exact E.
+Qed.
+
+Lemma o_write_inv o d sent : oinv o -> oinv (fst (o_write o d sent)).
+Proof.
+  intros I. unfold o_write. destruct (o_parked o) eqn:P; cbn [fst]; auto.
+  unfold o_wait. destruct (o_has o) eqn:H; cbn [negb].
+  - destruct (o_closed o) eqn:C; cbn [fst]; auto.
+    destruct I as [[A Hh] _]. split; [split; cbn; auto|]. cbn. auto.
+  - apply o_fill_inv; [apply oinv_oinv0, I|exact P].
+Qed.
+
+Lemma o_write_closed o d sent : o_closed (fst (o_write o d sent)) = o_closed o.
+Proof.
+  unfold o_write. destruct (o_parked o); auto. destruct (o_wait o); [apply o_fill_closed| |]; reflexivity.
+Qed.
+
+Lemma o_write_done o d sent m : oinv o -> snd (o_write o d sent) = WDone m ->
+  m = List.length d /\ o_q (fst (o_write o d sent)) = [] /\ o_sent (fst (o_write o d sent)) = o_ackd (fst (o_write o d sent)).
+Proof.
+  intros I. unfold o_write. destruct (o_parked o); [cbn; discriminate|].
+  destruct (o_wait o); [apply o_fill_done, oinv_oinv0, I| |]; cbn; discriminate.
+Qed.
+
+Lemma o_write_closed_outcome o d sent m : snd (o_write o d sent) = WClosed m -> o_closed o = true.
+Proof.
+  unfold o_write. destruct (o_parked o); [cbn; discriminate|]. unfold o_wait.
+  destruct (o_has o); cbn [negb]; [|apply o_fill_closed_outcome].
+  destruct (o_closed o); cbn; [auto|discriminate].
+Qed.
+
+(* a closed out-queue parks no writer *)
+Lemma o_write_closed_no_block o d sent : o_closed o = true -> forall b, snd (o_write o d sent) <> WBlock b.
+Proof.
+  intros C b. unfold o_write. destruct (o_parked o) eqn:P; [cbn; discriminate|]. unfold o_wait. rewrite C.
+  destruct (o_has o); cbn [negb]; [cbn; discriminate|]. apply o_fill_no_park_when_closed; auto.
+Qed.
+
+Lemma o_wake_inv0 o : oinv0 o -> oinv (fst (o_wake o)).
+Proof.
+  intros I. unfold o_wake. destruct (o_parked o) as [st|] eqn:P; cbn [fst].
+  - assert (I0 : oinv0 (o_set_parked o None)) by exact I.
+    destruct (o_closed (o_set_parked o None) && o_has (o_set_parked o None)); cbn [fst].
+    + split; [exact I0|cbn; congruence].
+    + destruct st as [d sent|n]; cbn [fst].
+      * pose proof (o_fill_inv (o_set_parked o None) d sent I0 eq_refl) as T.
+        destruct (o_fill (o_set_parked o None) d sent). exact T.
+      * split; [exact I0|cbn; congruence].
+  - split; [exact I|rewrite P; congruence].
+Qed.
+
+Lemma o_wake_closed o : o_closed (fst (o_wake o)) = o_closed o.
+Proof.
+  unfold o_wake. destruct (o_parked o) as [st|]; auto.
+  destruct (o_closed (o_set_parked o None) && o_has (o_set_parked o None)); auto.
+  destruct st; auto. pose proof (o_fill_closed (o_set_parked o None) d sent) as T. destruct (o_fill (o_set_parked o None) d sent). exact T.
+Qed.
+
+Lemma o_wake_some o : (exists r, snd (o_wake o) = Some r) <-> o_parked o <> None.
+Proof.
+  unfold o_wake. destruct (o_parked o) as [st|].
+  - split; [congruence|intros _].
+    destruct (o_closed (o_set_parked o None) && o_has (o_set_parked o None)); [cbn; eauto|].
+    destruct st; [|cbn; eauto]. destruct (o_fill (o_set_parked o None) d sent). cbn. eauto.
+  - cbn. split; [intros [r H]; discriminate|congruence].
+Qed.
+
+(* woken on a closed queue: the writer returns and none is parked afterwards *)
+Lemma o_wake_when_closed o : o_closed o = true -> o_parked (fst (o_wake o)) = None /\ forall b, snd (o_wake o) <> Some (WBlock b).
+Proof.
+  intros C. unfold o_wake. destruct (o_parked o) as [st|] eqn:P; [|cbn; split; [exact P|discriminate]].
+  destruct (o_closed (o_set_parked o None) && o_has (o_set_parked o None)); [cbn; split; [auto|discriminate]|].
+  destruct st as [d sent|n]; [|cbn; split; [auto|discriminate]].
+  destruct (o_fill_no_park_when_closed (o_set_parked o None) d sent C eq_refl) as [A B].
+  destruct (o_fill (o_set_parked o None) d sent). cbn in *. split; [exact A|]. intros b E. inversion E. exact (B b H0).
+Qed.
+
+(* a woken writer reports success only when the queue is empty: everything queued has been acknowledged *)
+Lemma o_wake_done o m : oinv0 o -> (o_has o = false \/ o_closed o = true) -> snd (o_wake o) = Some (WDone m) ->
+  o_q (fst (o_wake o)) = [] /\ o_sent (fst (o_wake o)) = o_ackd (fst (o_wake o)).
+Proof.
+  intros I HC. unfold o_wake. destruct (o_parked o) as [st|]; [|cbn; discriminate].
+  assert (I0 : oinv0 (o_set_parked o None)) by exact I.
+  destruct (o_closed (o_set_parked o None) && o_has (o_set_parked o None)) eqn:E; [cbn; discriminate|].
+  destruct st as [d sent|n].
+  - pose proof (o_fill_done (o_set_parked o None) d sent m I0) as T. destruct (o_fill (o_set_parked o None) d sent) as [o1 r].
+    cbn [fst snd] in *. intros R. inversion R; subst r. destruct (T eq_refl) as (_ & A & B). auto.
+  - cbn [fst snd]. intros _. cbn in E. destruct I as [A H].
+    assert (Hf : o_has o = false). { destruct HC as [X|X]; [exact X|]. rewrite X in E. cbn in E. exact E. }
+    rewrite Hf in H. symmetry in H. apply nonempty_l_false in H. cbn. rewrite A, H, app_nil_r. auto.
+Qed.
+
+Lemma o_wake_closed_outcome o m : snd (o_wake o) = Some (WClosed m) -> o_closed o = true.
+Proof.
+  unfold o_wake. destruct (o_parked o) as [st|]; [|cbn; discriminate].
+  destruct (o_closed (o_set_parked o None) && o_has (o_set_parked o None)) eqn:E.
+  - intros _. apply andb_prop in E. exact (proj1 E).
+  - destruct st as [d sent|n]; [|cbn; discriminate].
+    pose proof (o_fill_closed_outcome (o_set_parked o None) d sent m) as T. destruct (o_fill (o_set_parked o None) d sent) as [o1 r].
+    cbn [snd] in *. intros R. inversion R; subst r. exact (T eq_refl).
+Qed.
+
+Lemma o_ack_inv o : oinv o -> oinv (fst (o_ack o)).
+Proof.
+  intros [I P]. unfold o_ack. pose proof (o_dequeue_inv0 o I) as I1. destruct (o_dequeue_fields o) as [F1 F2].
+  destruct (o_has (o_dequeue o)) eqn:H; cbn [fst].
+  - split; [exact I1|]. rewrite F1, F2. intros X. split; [exact H|exact (proj2 (P X))].
+  - apply o_wake_inv0, I1.
+Qed.
+
+Lemma o_ack_closed o : o_closed (fst (o_ack o)) = o_closed o.
+Proof. unfold o_ack. destruct (o_has (o_dequeue o)); [|rewrite o_wake_closed]; apply o_dequeue_fields. Qed.
+
+Lemma o_ack_done o m : oinv o -> snd (o_ack o) = Some (WDone m) -> o_q (fst (o_ack o)) = [] /\ o_sent (fst (o_ack o)) = o_ackd (fst (o_ack o)).
+Proof.
+  intros [I _]. unfold o_ack. destruct (o_has (o_dequeue o)) eqn:H; [cbn; discriminate|].
+  apply o_wake_done; [apply o_dequeue_inv0, I|auto].
+Qed.
+
+Lemma o_close_inv o : oinv o -> oinv (fst (o_close o)).
+Proof. intros [I _]. unfold o_close. apply o_wake_inv0. exact I. Qed.
+
+Lemma o_close_closed o : o_closed (fst (o_close o)) = true.
+Proof. unfold o_close. rewrite o_wake_closed. reflexivity. Qed.
+
+Lemma o_close_parked o : o_parked (fst (o_close o)) = None.
+Proof. unfold o_close. apply o_wake_when_closed. reflexivity. Qed.
+
+(* Close releases the parked writer: it returns (it does not park again) *)
+Lemma o_close_releases o : o_parked o <> None -> exists r, snd (o_close o) = Some r /\ forall b, r <> WBlock b.
+Proof.
+  intros P. unfold o_close.
+  set (o1 := {| o_q := o_q o; o_has := o_has o; o_closed := true; o_parked := o_parked o; o_sent := o_sent o; o_ackd := o_ackd o |}).
+  destruct (proj2 (o_wake_some o1) P) as [r R]. exists r. split; [exact R|].
+  intros b E. subst r. exact (proj2 (o_wake_when_closed o1 eq_refl) b R).
+Qed.
+
+Lemma o_close_done o m : oinv o -> snd (o_close o) = Some (WDone m) -> o_q (fst (o_close o)) = [] /\ o_sent (fst (o_close o)) = o_ackd (fst (o_close o)).
+Proof. intros [I _]. unfold o_close. apply o_wake_done; [exact I|auto]. Qed.
+
+Lemma closed_out_queue_not_parked o : oinv o -> o_closed o = true -> o_parked o = None.
+Proof. intros [_ P] C. destruct (o_parked o) eqn:E; auto. destruct P as [_ X]; congruence. Qed.
+
 (* ------------------------------------------------------------------------------------------------ the two ends *)
 
 Definition live (s : slot) : bool := match s with Live => true | _ => false end.
@@ -327,10 +575,37 @@ Ltac split_pair t q w :=
   let E1 := fresh "E" in let E2 := fresh "E" in
   pose proof (f_equal fst E) as E1; pose proof (f_equal snd E) as E2; cbn [fst snd] in E1, E2; subst q; subst w; clear E.
 
+(* the three places where the queues are closed, written out for the shape of the code as it is *)
+Lemma srv_close_connection_live c : s_slot c = Live ->
+  srv_close_connection intended c =
+  (set_sout (set_sin (set_srv c true Retired) (fst (q_close (s_in c)))) (fst (o_close (s_out c))),
+   woke false (snd (q_close (s_in c))) ++ wwoke false (snd (o_close (s_out c)))).
+Proof.
+  intros S. unfold srv_close_connection. rewrite S. cbn [sh_sc_closes_q sh_sc_closes_out intended s_in s_out set_srv set_sin].
+  destruct (q_close (s_in c)) as [q w]. cbn [s_out set_sin set_srv]. destruct (o_close (s_out c)) as [o wo]. reflexivity.
+Qed.
+
+Lemma srv_expire_live c : s_slot c = Live ->
+  srv_expire intended c =
+  (set_sout (set_sin (set_srv c (s_closed c) Retired) (fst (q_close (s_in c)))) (fst (o_close (s_out c))),
+   woke false (snd (q_close (s_in c))) ++ wwoke false (snd (o_close (s_out c)))).
+Proof.
+  intros S. unfold srv_expire. rewrite S. cbn [sh_sweep_closes_q sh_sweep_closes_out intended s_in s_out set_srv set_sin].
+  destruct (q_close (s_in c)) as [q w]. cbn [s_out set_sin set_srv]. destruct (o_close (s_out c)) as [o wo]. reflexivity.
+Qed.
+
+Lemma srv_close_connection_not_live sh c : s_slot c <> Live -> srv_close_connection sh c = (c, []).
+Proof. unfold srv_close_connection. destruct (s_slot c); congruence. Qed.
+Lemma srv_expire_not_live sh c : s_slot c <> Live -> srv_expire sh c = (c, []).
+Proof. unfold srv_expire. destruct (s_slot c); congruence. Qed.
+
+Lemma slot_live_dec sl : sl = Live \/ sl <> Live.
+Proof. destruct sl; [left; reflexivity|right; discriminate|right; discriminate]. Qed.
+
 Lemma srv_close_connection_inv c : conn_inv c -> conn_inv (fst (srv_close_connection intended c)).
 Proof.
-  intros (I1 & I2 & I3 & I4 & I5). unfold srv_close_connection. destruct (s_slot c) eqn:S; cbn [fst]; try (unfold conn_inv; rewrite S; tauto).
-  cbn [sh_sc_closes_q intended]. split_pair (q_close (s_in (set_srv c true Retired))) q w. cbn [fst].
+  intros I. destruct (slot_live_dec (s_slot c)) as [S|S]; [|rewrite srv_close_connection_not_live by exact S; exact I].
+  rewrite (srv_close_connection_live c S). cbn [fst]. destruct I as (I1 & I2 & I3 & I4 & I5).
   apply conn_inv_intro; cbn; auto.
   - apply q_close_inv, I2.
   - apply q_close_closed.
@@ -338,8 +613,8 @@ Qed.
 
 Lemma srv_expire_inv c : conn_inv c -> conn_inv (fst (srv_expire intended c)).
 Proof.
-  intros (I1 & I2 & I3 & I4 & I5). unfold srv_expire. destruct (s_slot c) eqn:S; cbn [fst]; try (unfold conn_inv; rewrite S; tauto).
-  cbn [sh_sweep_closes_q intended]. split_pair (q_close (s_in (set_srv c (s_closed c) Retired))) q w. cbn [fst].
+  intros I. destruct (slot_live_dec (s_slot c)) as [S|S]; [|rewrite srv_expire_not_live by exact S; exact I].
+  rewrite (srv_expire_live c S). cbn [fst]. destruct I as (I1 & I2 & I3 & I4 & I5).
   apply conn_inv_intro; cbn; auto.
   - apply q_close_inv, I2.
   - apply q_close_closed.
@@ -427,11 +702,19 @@ Proof.
     pose proof (srv_close_request_inv cb false Ib) as T; rewrite Ec in T; exact T.
 Qed.
 
+Lemma cli_close_eq c :
+  cli_close intended c =
+  (let c1 := fst (cli_close_net intended c) in
+   (set_comm (set_cout (set_cin c1 (fst (q_close (c_in c1)))) (fst (o_close (c_out c1)))) true,
+    snd (cli_close_net intended c) ++ woke true (snd (q_close (c_in c1))) ++ wwoke true (snd (o_close (c_out c1))))).
+Proof.
+  unfold cli_close. destruct (cli_close_net intended c) as [c1 o1]. cbn [sh_cc_closes_q sh_cc_closes_out intended fst snd].
+  destruct (q_close (c_in c1)) as [q w]. cbn [c_out set_cin]. destruct (o_close (c_out c1)) as [o wo]. reflexivity.
+Qed.
+
 Lemma cli_close_inv c : conn_inv c -> conn_inv (fst (cli_close intended c)).
 Proof.
-  intros I. unfold cli_close. pose proof (cli_close_net_inv c I) as I1.
-  destruct (cli_close_net intended c) as [c1 o1]. cbn [fst] in I1.
-  cbn [sh_cc_closes_q intended]. split_pair (q_close (c_in c1)) q w. cbn [fst].
+  intros I. rewrite cli_close_eq. cbn zeta. cbn [fst]. pose proof (cli_close_net_inv c I) as I1.
   destruct I1 as (J1 & J2 & J3 & J4 & J5). apply conn_inv_intro; cbn; auto.
   - apply q_close_inv, J1.
   - apply q_close_closed.
@@ -468,6 +751,22 @@ Proof.
   - rewrite q_read_closed. exact I4.
 Qed.
 
+Lemma set_sout_inv c o : conn_inv c -> conn_inv (set_sout c o).
+Proof. intros (I1 & I2 & I3 & I4 & I5). apply conn_inv_intro; cbn; auto. Qed.
+Lemma set_cout_inv c o : conn_inv c -> conn_inv (set_cout c o).
+Proof. intros (I1 & I2 & I3 & I4 & I5). apply conn_inv_intro; cbn; auto. Qed.
+
+Lemma s_write_inv c d : conn_inv c -> conn_inv (fst (s_write c d)).
+Proof.
+  intros I. unfold s_write. destruct (o_parked (s_out c)); [exact I|]. destruct (s_closed c); [exact I|].
+  destruct (o_write (s_out c) d None). apply set_sout_inv, I.
+Qed.
+
+Lemma srv_ack_inv c own : conn_inv c -> conn_inv (fst (fst (srv_ack c own))).
+Proof.
+  intros I. unfold srv_ack. destruct (validate (s_slot c) own); [exact I|]. destruct (o_ack (s_out c)). apply set_sout_inv, I.
+Qed.
+
 Lemma step_inv c o : conn_inv c -> conn_inv (fst (step intended c o)).
 Proof.
   intros I. destruct o; cbn [step].
@@ -484,7 +783,11 @@ Proof.
   - pose proof (srv_expire_inv c I) as T. destruct (srv_expire intended c). exact T.
   - cbn [fst]. apply srv_forget_inv, I.
   - exact I.
-  - exact I.
+  - pose proof (s_write_inv c d I) as T. destruct (s_write c d). exact T.
+  - cbn [fst]. apply set_sout_inv, I.
+  - pose proof (srv_ack_inv c true I) as T. destruct (srv_ack c true) as [[c1 e] os]. exact T.
+  - destruct (o_write (c_out c) d (Some sent)). cbn [fst]. apply set_cout_inv, I.
+  - destruct (o_ack (c_out c)). cbn [fst]. apply set_cout_inv, I.
   - apply cli_poll_inv, I.
 Qed.
 
@@ -581,13 +884,13 @@ Proof. intros R. destruct (reach_inv c R) as (_ & _ & _ & _ & I5). exact I5. Qed
 
 (* ---- a session that is no longer live is frozen on the server side: whatever the client or the path does (any shape of the code),
    its in-queue, its closed flag and the fact that it is not live stay as they are; only the application's own Reads touch the queue *)
-Definition frozen (c c' : conn) : Prop := live (s_slot c') = false /\ s_in c' = s_in c /\ s_closed c' = s_closed c.
+Definition frozen (c c' : conn) : Prop := live (s_slot c') = false /\ s_in c' = s_in c /\ s_closed c' = s_closed c /\ s_out c' = s_out c.
 
 Lemma frozen_refl c : live (s_slot c) = false -> frozen c c.
 Proof. unfold frozen; auto. Qed.
 
 Lemma frozen_trans a b c : frozen a b -> frozen b c -> frozen a c.
-Proof. unfold frozen. intros (A1 & A2 & A3) (B1 & B2 & B3). repeat split; congruence. Qed.
+Proof. unfold frozen. intros (A1 & A2 & A3 & A4) (B1 & B2 & B3 & B4). repeat split; congruence. Qed.
 
 Lemma srv_close_connection_frozen sh c : live (s_slot c) = false -> srv_close_connection sh c = (c, []).
 Proof. unfold srv_close_connection. destruct (s_slot c); cbn; congruence. Qed.
@@ -628,22 +931,45 @@ Proof.
     destruct (IH c1 (acc ++ []) (proj1 F)) as [F2 O2]. rewrite app_nil_r in *. split; [eapply frozen_trans; eauto|exact O2].
 Qed.
 
+Ltac crush_close :=
+  repeat match goal with
+  | |- context [sh_sc_closes_q ?sh] => destruct (sh_sc_closes_q sh)
+  | |- context [sh_sc_closes_out ?sh] => destruct (sh_sc_closes_out sh)
+  | |- context [sh_sweep_closes_q ?sh] => destruct (sh_sweep_closes_q sh)
+  | |- context [sh_sweep_closes_out ?sh] => destruct (sh_sweep_closes_out sh)
+  | |- context [sh_cc_closes_q ?sh] => destruct (sh_cc_closes_q sh)
+  | |- context [sh_cc_closes_out ?sh] => destruct (sh_cc_closes_out sh)
+  end;
+  repeat match goal with
+  | |- context [q_close ?x] => destruct (q_close x); cbn [s_in s_out c_in c_out set_sin set_sout set_cin set_cout set_srv]
+  | |- context [o_close ?x] => destruct (o_close x); cbn [s_in s_out c_in c_out set_sin set_sout set_cin set_cout set_srv]
+  end; cbn; repeat split; auto.
+
+(* what the server-side close / expiry leave alone on the client end, under any shape *)
+Lemma srv_close_connection_client sh c : let c' := fst (srv_close_connection sh c) in
+  c_comm c' = c_comm c /\ c_hs c' = c_hs c /\ c_in c' = c_in c /\ c_out c' = c_out c.
+Proof. unfold srv_close_connection. destruct (s_slot c); [|cbn; repeat split; auto|cbn; repeat split; auto]. crush_close. Qed.
+Lemma srv_expire_client sh c : let c' := fst (srv_expire sh c) in
+  c_comm c' = c_comm c /\ c_hs c' = c_hs c /\ c_in c' = c_in c /\ c_out c' = c_out c.
+Proof. unfold srv_expire. destruct (s_slot c); [|cbn; repeat split; auto|cbn; repeat split; auto]. crush_close. Qed.
+Lemma srv_event_client sh c e : let c' := fst (srv_event sh c e) in
+  c_comm c' = c_comm c /\ c_hs c' = c_hs c /\ c_in c' = c_in c /\ c_out c' = c_out c.
+Proof.
+  destruct e; cbn [srv_event]; [apply srv_close_connection_client|apply srv_expire_client|].
+  cbn [fst]. unfold srv_forget. destruct (s_slot c); cbn; repeat split; auto.
+Qed.
+
 Lemma next_fate_comm sh fs : forall c acc, c_comm (fst (fst (next_fate sh fs c acc))) = c_comm c /\ c_hs (fst (fst (next_fate sh fs c acc))) = c_hs c.
 Proof.
   induction fs as [|f r IH]; intros c acc; cbn [next_fate]; [cbn; auto|].
   destruct f; try (cbn; auto; fail).
-  destruct (srv_event sh c e) as [c1 o] eqn:E. destruct (IH c1 (acc ++ o)) as [A B]. rewrite A, B.
-  assert (c_comm c1 = c_comm c /\ c_hs c1 = c_hs c); [|tauto].
-  destruct e; cbn [srv_event] in E.
-  - unfold srv_close_connection in E. destruct (s_slot c); try (inversion E; subst; auto; fail).
-    destruct (sh_sc_closes_q sh); [destruct (q_close (s_in (set_srv c true Retired)))|]; inversion E; subst; cbn; auto.
-  - unfold srv_expire in E. destruct (s_slot c); try (inversion E; subst; auto; fail).
-    destruct (sh_sweep_closes_q sh); [destruct (q_close (s_in (set_srv c (s_closed c) Retired)))|]; inversion E; subst; cbn; auto.
-  - inversion E; subst. unfold srv_forget. destruct (s_slot c); cbn; auto.
+  pose proof (srv_event_client sh c e) as (E1 & E2 & _). destruct (srv_event sh c e) as [c1 o]. cbn [fst] in E1, E2.
+  destruct (IH c1 (acc ++ o)) as [A B]. rewrite A, B. auto.
 Qed.
 
 Lemma mk_err_fields sh c e : let c' := fst (mk_err sh c e) in
-  c_comm c' = c_comm c /\ c_hs c' = c_hs c /\ s_in c' = s_in c /\ s_slot c' = s_slot c /\ s_closed c' = s_closed c /\ c_in c' = c_in c /\ c_fates c' = c_fates c.
+  c_comm c' = c_comm c /\ c_hs c' = c_hs c /\ s_in c' = s_in c /\ s_slot c' = s_slot c /\ s_closed c' = s_closed c /\ c_in c' = c_in c /\ c_fates c' = c_fates c /\
+  s_out c' = s_out c /\ c_out c' = c_out c.
 Proof. unfold mk_err. destruct e; match goal with |- context [if ?b then _ else _] => destruct b end; cbn; repeat split; reflexivity. Qed.
 
 Lemma srv_packet_comm c own up : c_comm (fst (fst (srv_packet c own up))) = c_comm c /\ c_hs (fst (fst (srv_packet c own up))) = c_hs c.
@@ -673,8 +999,7 @@ Qed.
 
 Lemma cli_close_comm sh c : c_comm (fst (cli_close sh c)) = true.
 Proof.
-  unfold cli_close. destruct (cli_close_net sh c) as [c1 o1].
-  destruct (sh_cc_closes_q sh); [destruct (q_close (c_in c1))|]; reflexivity.
+  unfold cli_close. destruct (cli_close_net sh c) as [c1 o1]. crush_close.
 Qed.
 
 (* closed stays closed *)
@@ -688,16 +1013,17 @@ Proof.
   - unfold s_read. destruct (q_parked (s_in c)); [exact C|].
     match goal with |- context [if ?b then _ else _] => destruct b end; [exact C|]. destruct (q_read (s_in c) n). exact C.
   - pose proof (cli_close_comm sh c) as T. destruct (cli_close sh c). exact T.
-  - unfold srv_close_connection. destruct (s_slot c); try exact C.
-    destruct (sh_sc_closes_q sh); [destruct (q_close (s_in (set_srv c true Retired)))|]; exact C.
+  - pose proof (srv_close_connection_client sh c) as (T & _). destruct (srv_close_connection sh c). cbn [fst] in *. congruence.
   - unfold srv_close_request. destruct (validate (s_slot c) true); [exact C|].
-    unfold srv_close_connection. destruct (s_slot c); try exact C.
-    destruct (sh_sc_closes_q sh); [destruct (q_close (s_in (set_srv c true Retired)))|]; exact C.
-  - unfold srv_expire. destruct (s_slot c); try exact C.
-    destruct (sh_sweep_closes_q sh); [destruct (q_close (s_in (set_srv c (s_closed c) Retired)))|]; exact C.
+    pose proof (srv_close_connection_client sh c) as (T & _). destruct (srv_close_connection sh c). cbn [fst] in *. congruence.
+  - pose proof (srv_expire_client sh c) as (T & _). destruct (srv_expire sh c). cbn [fst] in *. congruence.
   - cbn [fst]. unfold srv_forget. destruct (s_slot c); exact C.
   - exact C.
+  - unfold s_write. destruct (o_parked (s_out c)); [exact C|]. destruct (s_closed c); [exact C|]. destruct (o_write (s_out c) d None). exact C.
   - exact C.
+  - unfold srv_ack. destruct (validate (s_slot c) true); [exact C|]. destruct (o_ack (s_out c)). exact C.
+  - destruct (o_write (c_out c) d (Some sent)). exact C.
+  - destruct (o_ack (c_out c)). exact C.
   - unfold cli_poll. rewrite C. exact C.
 Qed.
 
@@ -708,8 +1034,8 @@ Proof.
   specialize (IH c1 T). destruct (run sh c1 r). exact IH.
 Qed.
 
-Lemma frozen_set_client c c' : s_in c' = s_in c -> s_slot c' = s_slot c -> s_closed c' = s_closed c -> live (s_slot c) = false -> frozen c c'.
-Proof. unfold frozen. intros A B C L. rewrite B. auto. Qed.
+Lemma frozen_set_client c c' : s_in c' = s_in c -> s_slot c' = s_slot c -> s_closed c' = s_closed c -> s_out c' = s_out c -> live (s_slot c) = false -> frozen c c'.
+Proof. unfold frozen. intros A B C D L. rewrite B. auto. Qed.
 
 Lemma sar_frozen sh tries : forall c up, live (s_slot c) = false ->
   frozen c (fst (fst (sar sh tries c up))) /\ (forall r, ~ In (OWoke false r) (snd (sar sh tries c up))).
@@ -758,13 +1084,10 @@ Lemma cli_close_frozen sh c : live (s_slot c) = false ->
 Proof.
   intros L. unfold cli_close. destruct (cli_close_net_frozen sh c L) as [F1 W1].
   destruct (cli_close_net sh c) as [c1 o1]. cbn [fst snd] in F1, W1.
-  destruct (sh_cc_closes_q sh).
-  - destruct (q_close (c_in c1)) as [q w]. cbn [fst snd]. split.
-    + eapply frozen_trans; [exact F1|]. apply frozen_set_client; cbn; auto. exact (proj1 F1).
-    + intros r H. apply in_app_or in H. destruct H as [H|H]; [exact (W1 r H)|]. exact (woke_client_not_server false w r H).
-  - cbn [fst snd]. split.
-    + eapply frozen_trans; [exact F1|]. apply frozen_set_client; cbn; auto. exact (proj1 F1).
-    + intros r H. rewrite app_nil_r in H. exact (W1 r H).
+  assert (NW : forall (w : option wout) r, ~ In (OWoke false r) (wwoke true w)) by (intros [w|] r; cbn; [intros [H|[]]; discriminate|tauto]).
+  destruct (sh_cc_closes_q sh); [destruct (q_close (c_in c1)) as [q w]|]; (destruct (sh_cc_closes_out sh); [cbn [c_out set_cin]; destruct (o_close (c_out c1)) as [oo wo]|]); cbn [fst snd]; (split;
+    [eapply frozen_trans; [exact F1|]; apply frozen_set_client; cbn; auto; exact (proj1 F1)
+    |intros r H; repeat (apply in_app_or in H; destruct H as [H|H]); try exact (W1 r H); try exact (woke_client_not_server false _ r H); try exact (NW _ r H); try destruct H]).
 Qed.
 
 Lemma cli_poll_frozen sh c up : live (s_slot c) = false ->
@@ -878,19 +1201,22 @@ Proof. unfold srv_done, frozen. intros (A & B) (C & D & E). rewrite D. auto. Qed
 Lemma in_woke b r w b' : In (OWoke b r) (woke b' w) -> b = b' /\ w = Some r.
 Proof. destruct w; cbn; [intros [H|[]]; inversion H; auto|tauto]. Qed.
 
+Lemma in_wwoke_not_woke b r b' w : In (OWoke b r) (wwoke b' w) -> False.
+Proof. destruct w; cbn; [intros [H|[]]; discriminate|tauto]. Qed.
+
 Lemma srv_close_connection_eof c : conn_inv c -> In (OWoke false REof) (snd (srv_close_connection intended c)) ->
   srv_done (fst (srv_close_connection intended c)).
 Proof.
-  intros (I1 & I2 & I3 & I4 & I5). unfold srv_close_connection. destruct (s_slot c) eqn:S; cbn [snd]; try (cbn; tauto).
-  cbn [sh_sc_closes_q intended]. split_pair (q_close (s_in (set_srv c true Retired))) q w. cbn [fst snd]. intros H.
-  apply in_woke in H. destruct H as [_ H]. split; [reflexivity|]. cbn [s_in set_sin]. apply q_close_eof; [exact I2|exact H].
+  intros (I1 & I2 & I3 & I4 & I5). destruct (slot_live_dec (s_slot c)) as [S|S]; [|rewrite srv_close_connection_not_live by exact S; cbn; tauto].
+  rewrite (srv_close_connection_live c S). cbn [fst snd]. intros H. apply in_app_or in H. destruct H as [H|H]; [|destruct (in_wwoke_not_woke _ _ _ _ H)].
+  apply in_woke in H. destruct H as [_ H]. split; [reflexivity|]. cbn [s_in set_sin set_sout]. apply q_close_eof; [exact I2|exact H].
 Qed.
 
 Lemma srv_expire_eof c : conn_inv c -> In (OWoke false REof) (snd (srv_expire intended c)) -> srv_done (fst (srv_expire intended c)).
 Proof.
-  intros (I1 & I2 & I3 & I4 & I5). unfold srv_expire. destruct (s_slot c) eqn:S; cbn [snd]; try (cbn; tauto).
-  cbn [sh_sweep_closes_q intended]. split_pair (q_close (s_in (set_srv c (s_closed c) Retired))) q w. cbn [fst snd]. intros H.
-  apply in_woke in H. destruct H as [_ H]. split; [reflexivity|]. cbn [s_in set_sin]. apply q_close_eof; [exact I2|exact H].
+  intros (I1 & I2 & I3 & I4 & I5). destruct (slot_live_dec (s_slot c)) as [S|S]; [|rewrite srv_expire_not_live by exact S; cbn; tauto].
+  rewrite (srv_expire_live c S). cbn [fst snd]. intros H. apply in_app_or in H. destruct H as [H|H]; [|destruct (in_wwoke_not_woke _ _ _ _ H)].
+  apply in_woke in H. destruct H as [_ H]. split; [reflexivity|]. cbn [s_in set_sin set_sout]. apply q_close_eof; [exact I2|exact H].
 Qed.
 
 Lemma srv_event_eof c e : conn_inv c -> In (OWoke false REof) (snd (srv_event intended c e)) -> srv_done (fst (srv_event intended c e)).
@@ -912,16 +1238,20 @@ Qed.
 Lemma srv_close_connection_no_client_wake sh c r : ~ In (OWoke true r) (snd (srv_close_connection sh c)).
 Proof.
   unfold srv_close_connection. destruct (s_slot c); cbn [snd]; try tauto.
-  destruct (sh_sc_closes_q sh); [|cbn; tauto]. destruct (q_close (s_in (set_srv c true Retired))) as [q w]. cbn [snd].
-  intros H. apply in_woke in H. destruct H; discriminate.
+  destruct (sh_sc_closes_q sh); [destruct (q_close (s_in (set_srv c true Retired))) as [q w]|];
+  (destruct (sh_sc_closes_out sh); [match goal with |- context [o_close ?x] => destruct (o_close x) as [oo wo] end|]); cbn [snd];
+  intros H; repeat (apply in_app_or in H; destruct H as [H|H]); try (apply in_woke in H; destruct H; discriminate);
+  try (destruct (in_wwoke_not_woke _ _ _ _ H)); try destruct H.
 Qed.
 
 Lemma srv_event_no_client_wake sh c e r : ~ In (OWoke true r) (snd (srv_event sh c e)).
 Proof.
   destruct e; cbn [srv_event snd]; [apply srv_close_connection_no_client_wake| |tauto].
   unfold srv_expire. destruct (s_slot c); cbn [snd]; try tauto.
-  destruct (sh_sweep_closes_q sh); [|cbn; tauto]. destruct (q_close (s_in (set_srv c (s_closed c) Retired))) as [q w]. cbn [snd].
-  intros H. apply in_woke in H. destruct H; discriminate.
+  destruct (sh_sweep_closes_q sh); [destruct (q_close (s_in (set_srv c (s_closed c) Retired))) as [q w]|];
+  (destruct (sh_sweep_closes_out sh); [match goal with |- context [o_close ?x] => destruct (o_close x) as [oo wo] end|]); cbn [snd];
+  intros H; repeat (apply in_app_or in H; destruct H as [H|H]); try (apply in_woke in H; destruct H; discriminate);
+  try (destruct (in_wwoke_not_woke _ _ _ _ H)); try destruct H.
 Qed.
 
 Lemma srv_close_request_eof c own : conn_inv c -> In (OWoke false REof) (snd (srv_close_request intended c own)) ->
@@ -1040,13 +1370,13 @@ Lemma cli_close_eof c : conn_inv c ->
   (In (OWoke true REof) (snd (cli_close intended c)) -> cli_done (fst (cli_close intended c))) /\
   (In (OWoke false REof) (snd (cli_close intended c)) -> srv_done (fst (cli_close intended c))).
 Proof.
-  intros I. unfold cli_close. destruct (cli_close_net_eof c I) as [A B]. pose proof (cli_close_net_inv c I) as I1.
-  destruct (cli_close_net intended c) as [c1 o1]. cbn [fst snd] in A, B, I1.
-  cbn [sh_cc_closes_q intended]. split_pair (q_close (c_in c1)) q w. cbn [fst snd]. split.
-  - intros H. apply in_app_or in H. destruct H as [H|H]; [destruct (A H)|]. apply in_woke in H. destruct H as [_ H].
-    split; [reflexivity|]. cbn. apply q_close_eof; [exact (proj1 I1)|exact H].
-  - intros H. apply in_app_or in H. destruct H as [H|H]; [|apply in_woke in H; destruct H; discriminate].
-    specialize (B H). unfold srv_done in *. cbn. exact B.
+  intros I. rewrite cli_close_eq. cbn zeta. destruct (cli_close_net_eof c I) as [A B]. pose proof (cli_close_net_inv c I) as I1.
+  destruct (cli_close_net intended c) as [c1 o1]. cbn [fst snd] in *. split.
+  - intros H. apply in_app_or in H. destruct H as [H|H]; [destruct (A H)|]. apply in_app_or in H. destruct H as [H|H]; [|destruct (in_wwoke_not_woke _ _ _ _ H)].
+    apply in_woke in H. destruct H as [_ H]. split; [reflexivity|]. cbn. apply q_close_eof; [exact (proj1 I1)|exact H].
+  - intros H. apply in_app_or in H. destruct H as [H|H].
+    + specialize (B H). unfold srv_done in *. cbn. exact B.
+    + apply in_app_or in H. destruct H as [H|H]; [apply in_woke in H; destruct H; discriminate|destruct (in_wwoke_not_woke _ _ _ _ H)].
 Qed.
 
 Lemma cli_poll_eof c up : conn_inv c ->
@@ -1098,7 +1428,12 @@ Proof.
     + intros [H|H]; [discriminate|exact (A H)].
   - cbn [fst snd]. split; intros [H|[]]; discriminate.
   - cbn [fst snd]. split; intros [H|[]]; discriminate.
+  - destruct (s_write c d) as [c1 r]. cbn [fst snd]. split; intros [H|[]]; discriminate.
   - cbn [fst snd]. split; intros [H|[]]; discriminate.
+  - unfold srv_ack. destruct (validate (s_slot c) true); [cbn [fst snd]; split; intros [H|[]]; discriminate|].
+    destruct (o_ack (s_out c)) as [oo wo]. cbn [fst snd]. split; (intros [H|H]; [discriminate|destruct (in_wwoke_not_woke _ _ _ _ H)]).
+  - destruct (o_write (c_out c) d (Some sent)) as [oo r]. cbn [fst snd]. split; intros [H|[]]; discriminate.
+  - destruct (o_ack (c_out c)) as [oo wo]. cbn [fst snd]. split; (intros [H|H]; [discriminate|destruct (in_wwoke_not_woke _ _ _ _ H)]).
   - apply cli_poll_eof, I.
 Qed.
 
@@ -1185,20 +1520,20 @@ Proof. intros Fi. apply forgotten_idle_polls; auto. apply react_gives_up. reflex
 (* ------------------------------------------------------------------------------------------------ the other shapes *)
 
 Definition eof_when_closed_server : shape :=
-  {| sh_c_eof_drained := true; sh_s_eof_drained := false; sh_cc_closes_q := true; sh_sc_closes_q := true; sh_sweep_closes_q := true; sh_err_identity := true; sh_err_identity_packet := true |}.
+  {| sh_c_eof_drained := true; sh_s_eof_drained := false; sh_cc_closes_q := true; sh_sc_closes_q := true; sh_sweep_closes_q := true; sh_err_identity := true; sh_err_identity_packet := true; sh_cc_closes_out := true; sh_sc_closes_out := true; sh_sweep_closes_out := true |}.
 Definition eof_when_closed_client : shape :=
-  {| sh_c_eof_drained := false; sh_s_eof_drained := true; sh_cc_closes_q := true; sh_sc_closes_q := true; sh_sweep_closes_q := true; sh_err_identity := true; sh_err_identity_packet := true |}.
+  {| sh_c_eof_drained := false; sh_s_eof_drained := true; sh_cc_closes_q := true; sh_sc_closes_q := true; sh_sweep_closes_q := true; sh_err_identity := true; sh_err_identity_packet := true; sh_cc_closes_out := true; sh_sc_closes_out := true; sh_sweep_closes_out := true |}.
 Definition close_connection_leaves_queue : shape :=
-  {| sh_c_eof_drained := true; sh_s_eof_drained := true; sh_cc_closes_q := true; sh_sc_closes_q := false; sh_sweep_closes_q := true; sh_err_identity := true; sh_err_identity_packet := true |}.
+  {| sh_c_eof_drained := true; sh_s_eof_drained := true; sh_cc_closes_q := true; sh_sc_closes_q := false; sh_sweep_closes_q := true; sh_err_identity := true; sh_err_identity_packet := true; sh_cc_closes_out := true; sh_sc_closes_out := true; sh_sweep_closes_out := true |}.
 Definition sweep_leaves_queue : shape :=
-  {| sh_c_eof_drained := true; sh_s_eof_drained := true; sh_cc_closes_q := true; sh_sc_closes_q := true; sh_sweep_closes_q := false; sh_err_identity := true; sh_err_identity_packet := true |}.
+  {| sh_c_eof_drained := true; sh_s_eof_drained := true; sh_cc_closes_q := true; sh_sc_closes_q := true; sh_sweep_closes_q := false; sh_err_identity := true; sh_err_identity_packet := true; sh_cc_closes_out := true; sh_sc_closes_out := true; sh_sweep_closes_out := true |}.
 Definition client_close_leaves_queue : shape :=
-  {| sh_c_eof_drained := true; sh_s_eof_drained := true; sh_cc_closes_q := false; sh_sc_closes_q := true; sh_sweep_closes_q := true; sh_err_identity := true; sh_err_identity_packet := true |}.
+  {| sh_c_eof_drained := true; sh_s_eof_drained := true; sh_cc_closes_q := false; sh_sc_closes_q := true; sh_sweep_closes_q := true; sh_err_identity := true; sh_err_identity_packet := true; sh_cc_closes_out := true; sh_sc_closes_out := true; sh_sweep_closes_out := true |}.
 Definition errors_wrapped : shape :=
-  {| sh_c_eof_drained := true; sh_s_eof_drained := true; sh_cc_closes_q := true; sh_sc_closes_q := true; sh_sweep_closes_q := true; sh_err_identity := false; sh_err_identity_packet := false |}.
+  {| sh_c_eof_drained := true; sh_s_eof_drained := true; sh_cc_closes_q := true; sh_sc_closes_q := true; sh_sweep_closes_q := true; sh_err_identity := false; sh_err_identity_packet := false; sh_cc_closes_out := true; sh_sc_closes_out := true; sh_sweep_closes_out := true |}.
 
 Definition packet_error_wrapped : shape :=
-  {| sh_c_eof_drained := true; sh_s_eof_drained := true; sh_cc_closes_q := true; sh_sc_closes_q := true; sh_sweep_closes_q := true; sh_err_identity := true; sh_err_identity_packet := false |}.
+  {| sh_c_eof_drained := true; sh_s_eof_drained := true; sh_cc_closes_q := true; sh_sc_closes_q := true; sh_sweep_closes_q := true; sh_err_identity := true; sh_err_identity_packet := false; sh_cc_closes_out := true; sh_sc_closes_out := true; sh_sweep_closes_out := true |}.
 
 (* end-of-stream as soon as the end is closed: octets that were appended are never returned *)
 Lemma eof_when_closed_server_loses :
@@ -1212,31 +1547,46 @@ Lemma eof_when_closed_client_loses :
 Proof. vm_compute. repeat split; auto. Qed.
 
 (* a session that is not live, with a reader parked: whatever happens next, under any shape, the reader stays parked *)
-Lemma step_frozen_parked sh c o : live (s_slot c) = false -> q_parked (s_in c) <> None -> frozen c (fst (step sh c o)).
+Definition frozen_in (c c' : conn) : Prop := live (s_slot c') = false /\ s_in c' = s_in c /\ s_closed c' = s_closed c.
+
+Lemma frozen_frozen_in c c' : frozen c c' -> frozen_in c c'.
+Proof. unfold frozen, frozen_in. tauto. Qed.
+Lemma frozen_in_refl c : live (s_slot c) = false -> frozen_in c c.
+Proof. unfold frozen_in; auto. Qed.
+Lemma frozen_in_trans a b c : frozen_in a b -> frozen_in b c -> frozen_in a c.
+Proof. unfold frozen_in. intros (A1 & A2 & A3) (B1 & B2 & B3). repeat split; congruence. Qed.
+
+Lemma step_frozen_parked sh c o : live (s_slot c) = false -> q_parked (s_in c) <> None -> frozen_in c (fst (step sh c o)).
 Proof.
   intros L P. destruct o; cbn [step].
-  - destruct (q_append (c_in c) d). cbn [fst]. apply frozen_set_client; cbn; auto.
-  - destruct (srv_packet_frozen c true (Some d) L) as [e E]. rewrite E. apply frozen_refl, L.
-  - unfold c_read. destruct (q_parked (c_in c)); [apply frozen_refl, L|].
-    match goal with |- context [if ?b then _ else _] => destruct b end; [apply frozen_refl, L|]. destruct (q_read (c_in c) n).
-    cbn [fst]. apply frozen_set_client; cbn; auto.
-  - unfold s_read. destruct (q_parked (s_in c)); [apply frozen_refl, L|congruence].
-  - pose proof (cli_close_frozen sh c L) as [T _]. destruct (cli_close sh c). exact T.
-  - rewrite srv_close_connection_frozen by exact L. apply frozen_refl, L.
-  - destruct (srv_close_request_frozen sh c true L) as [e E]. rewrite E. apply frozen_refl, L.
-  - rewrite srv_expire_frozen by exact L. apply frozen_refl, L.
-  - cbn [fst]. pose proof (srv_event_frozen sh c SvForget L) as [T _]. exact T.
-  - apply frozen_refl, L.
-  - apply frozen_refl, L.
-  - apply cli_poll_frozen, L.
+  - destruct (q_append (c_in c) d). cbn [fst]. unfold frozen_in; cbn; auto.
+  - destruct (srv_packet_frozen c true (Some d) L) as [e E]. rewrite E. apply frozen_in_refl, L.
+  - unfold c_read. destruct (q_parked (c_in c)); [apply frozen_in_refl, L|].
+    match goal with |- context [if ?b then _ else _] => destruct b end; [apply frozen_in_refl, L|]. destruct (q_read (c_in c) n).
+    cbn [fst]. unfold frozen_in; cbn; auto.
+  - unfold s_read. destruct (q_parked (s_in c)); [apply frozen_in_refl, L|congruence].
+  - pose proof (cli_close_frozen sh c L) as [T _]. destruct (cli_close sh c). apply frozen_frozen_in, T.
+  - rewrite srv_close_connection_frozen by exact L. apply frozen_in_refl, L.
+  - destruct (srv_close_request_frozen sh c true L) as [e E]. rewrite E. apply frozen_in_refl, L.
+  - rewrite srv_expire_frozen by exact L. apply frozen_in_refl, L.
+  - cbn [fst]. pose proof (srv_event_frozen sh c SvForget L) as [T _]. apply frozen_frozen_in, T.
+  - apply frozen_in_refl, L.
+  - unfold s_write. destruct (o_parked (s_out c)); [apply frozen_in_refl, L|]. destruct (s_closed c); [apply frozen_in_refl, L|].
+    destruct (o_write (s_out c) d None). cbn [fst]. unfold frozen_in; cbn; auto.
+  - cbn [fst]. unfold frozen_in; cbn; auto.
+  - unfold srv_ack. rewrite (proj2 (Bool.not_true_iff_false _) L) || idtac.
+    pose proof (validate_not_live _ true L) as V. destruct (validate (s_slot c) true); [apply frozen_in_refl, L|congruence].
+  - destruct (o_write (c_out c) d (Some sent)). cbn [fst]. unfold frozen_in; cbn; auto.
+  - destruct (o_ack (c_out c)). cbn [fst]. unfold frozen_in; cbn; auto.
+  - apply frozen_frozen_in, cli_poll_frozen, L.
 Qed.
 
-Lemma run_frozen_parked sh ops : forall c, live (s_slot c) = false -> q_parked (s_in c) <> None -> frozen c (fst (run sh c ops)).
+Lemma run_frozen_parked sh ops : forall c, live (s_slot c) = false -> q_parked (s_in c) <> None -> frozen_in c (fst (run sh c ops)).
 Proof.
-  induction ops as [|o r IH]; intros c L P; cbn [run fst]; [apply frozen_refl, L|].
+  induction ops as [|o r IH]; intros c L P; cbn [run fst]; [apply frozen_in_refl, L|].
   pose proof (step_frozen_parked sh c o L P) as F. destruct (step sh c o) as [c1 o1]. cbn [fst] in F.
   assert (P1 : q_parked (s_in c1) <> None) by (destruct F as (_ & E & _); rewrite E; exact P).
-  specialize (IH c1 (proj1 F) P1). destruct (run sh c1 r) as [c2 o2]. cbn [fst] in *. eapply frozen_trans; eauto.
+  specialize (IH c1 (proj1 F) P1). destruct (run sh c1 r) as [c2 o2]. cbn [fst] in *. eapply frozen_in_trans; eauto.
 Qed.
 
 Lemma close_connection_leaves_queue_parks_for_ever hs fs ops :
@@ -1278,17 +1628,19 @@ Proof.
   - unfold c_read. destruct (q_parked (c_in c)); [reflexivity|congruence].
   - unfold s_read. destruct (q_parked (s_in c)); [reflexivity|].
     match goal with |- context [if ?b then _ else _] => destruct b end; [reflexivity|]. destruct (q_read (s_in c) n). reflexivity.
-  - unfold cli_close, cli_close_net. rewrite C. cbn. reflexivity.
-  - unfold srv_close_connection. destruct (s_slot c); try reflexivity.
-    destruct (sh_sc_closes_q client_close_leaves_queue); [destruct (q_close (s_in (set_srv c true Retired)))|]; reflexivity.
+  - unfold cli_close, cli_close_net. rewrite C. cbn [negb andb sh_cc_closes_q sh_cc_closes_out client_close_leaves_queue].
+    destruct (o_close (c_out c)). reflexivity.
+  - pose proof (srv_close_connection_client client_close_leaves_queue c) as (_ & _ & X & _). destruct (srv_close_connection client_close_leaves_queue c). exact X.
   - unfold srv_close_request. destruct (validate (s_slot c) true); [reflexivity|].
-    unfold srv_close_connection. destruct (s_slot c); try reflexivity.
-    destruct (sh_sc_closes_q client_close_leaves_queue); [destruct (q_close (s_in (set_srv c true Retired)))|]; reflexivity.
-  - unfold srv_expire. destruct (s_slot c); try reflexivity.
-    destruct (sh_sweep_closes_q client_close_leaves_queue); [destruct (q_close (s_in (set_srv c (s_closed c) Retired)))|]; reflexivity.
+    pose proof (srv_close_connection_client client_close_leaves_queue c) as (_ & _ & X & _). destruct (srv_close_connection client_close_leaves_queue c). exact X.
+  - pose proof (srv_expire_client client_close_leaves_queue c) as (_ & _ & X & _). destruct (srv_expire client_close_leaves_queue c). exact X.
   - cbn [fst]. unfold srv_forget. destruct (s_slot c); reflexivity.
   - reflexivity.
+  - unfold s_write. destruct (o_parked (s_out c)); [reflexivity|]. destruct (s_closed c); [reflexivity|]. destruct (o_write (s_out c) d None). reflexivity.
   - reflexivity.
+  - unfold srv_ack. destruct (validate (s_slot c) true); [reflexivity|]. destruct (o_ack (s_out c)). reflexivity.
+  - destruct (o_write (c_out c) d (Some sent)). reflexivity.
+  - destruct (o_ack (c_out c)). reflexivity.
   - unfold cli_poll. rewrite C. reflexivity.
 Qed.
 
@@ -1363,4 +1715,345 @@ Proof.
   assert (P : q_parked (c_in c0) = Some 4) by (destruct hs; reflexivity).
   destruct (client_close_leaves_queue_parks_for_ever ops c0 NA C) as [C1 E1]; [congruence|].
   cbn zeta. rewrite E1. auto.
+Qed.
+
+(* ------------------------------------------------------------------------------------------------ the out-queues of the two ends *)
+
+(* holds in every state the connection can get into (shape of the code as it is) *)
+Definition out_inv (c : conn) : Prop :=
+  oinv (c_out c) /\ oinv (s_out c) /\
+  o_closed (c_out c) = c_comm c /\                    (* the client's out-queue is closed exactly when the client end is *)
+  o_closed (s_out c) = negb (live (s_slot c)).        (* the server's out-queue is closed exactly when the session is no longer live *)
+
+Definition same_out (c c' : conn) : Prop :=
+  c_out c' = c_out c /\ s_out c' = s_out c /\ c_comm c' = c_comm c /\ s_slot c' = s_slot c.
+
+Lemma out_inv_same c c' : out_inv c -> same_out c c' -> out_inv c'.
+Proof. unfold out_inv, same_out. intros (A & B & C & D) (E & F & G & H). rewrite E, F, G, H. auto. Qed.
+
+Lemma same_out_refl c : same_out c c.
+Proof. unfold same_out; auto. Qed.
+Lemma same_out_trans a b c : same_out a b -> same_out b c -> same_out a c.
+Proof. unfold same_out. intros (A1 & A2 & A3 & A4) (B1 & B2 & B3 & B4). repeat split; congruence. Qed.
+
+Lemma out_inv_init hs fs : out_inv (init_conn hs fs).
+Proof. unfold out_inv; cbn. repeat split; auto using oinv_new; try congruence; apply oinv_new. Qed.
+
+Lemma srv_close_connection_out c : out_inv c -> out_inv (fst (srv_close_connection intended c)).
+Proof.
+  intros I. destruct (slot_live_dec (s_slot c)) as [S|S]; [|rewrite srv_close_connection_not_live by exact S; exact I].
+  rewrite (srv_close_connection_live c S). cbn [fst]. destruct I as (A & B & C & D). unfold out_inv; cbn.
+  split; [exact A|]. split; [apply o_close_inv, B|]. split; [exact C|apply o_close_closed].
+Qed.
+
+Lemma srv_expire_out c : out_inv c -> out_inv (fst (srv_expire intended c)).
+Proof.
+  intros I. destruct (slot_live_dec (s_slot c)) as [S|S]; [|rewrite srv_expire_not_live by exact S; exact I].
+  rewrite (srv_expire_live c S). cbn [fst]. destruct I as (A & B & C & D). unfold out_inv; cbn.
+  split; [exact A|]. split; [apply o_close_inv, B|]. split; [exact C|apply o_close_closed].
+Qed.
+
+Lemma srv_forget_out c : out_inv c -> out_inv (srv_forget c).
+Proof.
+  intros (A & B & C & D). unfold srv_forget. destruct (s_slot c) eqn:S; try (unfold out_inv; rewrite S; tauto).
+  unfold out_inv; cbn. auto.
+Qed.
+
+Lemma srv_event_out c e : out_inv c -> out_inv (fst (srv_event intended c e)).
+Proof. intros I. destruct e; cbn [srv_event fst]; auto using srv_close_connection_out, srv_expire_out, srv_forget_out. Qed.
+
+Lemma srv_packet_same c own up : same_out c (fst (fst (srv_packet c own up))).
+Proof.
+  unfold srv_packet. destruct (validate (s_slot c) own); [apply same_out_refl|]. destruct up as [d|]; [|apply same_out_refl].
+  destruct (q_append (s_in c) d). unfold same_out; cbn; auto.
+Qed.
+
+Lemma srv_close_request_out c own : out_inv c -> out_inv (fst (fst (srv_close_request intended c own))).
+Proof.
+  intros I. unfold srv_close_request. destruct (validate (s_slot c) own); cbn [fst]; auto.
+  pose proof (srv_close_connection_out c I) as T. destruct (srv_close_connection intended c). exact T.
+Qed.
+
+Lemma next_fate_out fs : forall c acc, out_inv c -> out_inv (fst (fst (next_fate intended fs c acc))).
+Proof.
+  induction fs as [|f r IH]; intros c acc I; cbn [next_fate].
+  - cbn [fst]. eapply out_inv_same; [exact I|unfold same_out; cbn; auto].
+  - destruct f; try (cbn [fst]; eapply out_inv_same; [exact I|unfold same_out; cbn; auto]; fail).
+    pose proof (srv_event_out c e I) as T. destruct (srv_event intended c e) as [c1 o]. apply IH, T.
+Qed.
+
+Lemma sar_out tries : forall c up, out_inv c -> out_inv (fst (fst (sar intended tries c up))).
+Proof.
+  induction tries as [|t IH]; intros c up I; cbn [sar].
+  - rewrite mk_err_intended. exact I.
+  - pose proof (next_fate_out (c_fates c) c [] I) as I1. destruct (next_fate intended (c_fates c) c []) as [[c1 f] o1]. cbn [fst] in I1.
+    destruct f.
+    + pose proof (srv_packet_same c1 true up) as S. destruct (srv_packet c1 true up) as [[c2 e] o2]. cbn [fst] in S.
+      pose proof (out_inv_same _ _ I1 S) as I2. destruct e as [e|]; [rewrite mk_err_intended; exact I2|].
+      destruct (nonempty down); [|exact I2]. destruct (q_append (c_in c2) down). cbn [fst].
+      eapply out_inv_same; [exact I2|unfold same_out; cbn; auto].
+    + specialize (IH c1 up I1). destruct (sar intended t c1 up) as [[c2 r] o2]. exact IH.
+    + cbn [fst]. eapply out_inv_same; [exact I1|unfold same_out; cbn; auto].
+    + pose proof (srv_packet_same c1 false up) as S. destruct (srv_packet c1 false up) as [[c2 e] o2]. cbn [fst] in S.
+      pose proof (out_inv_same _ _ I1 S) as I2. destruct e as [e|]; [rewrite mk_err_intended|]; exact I2.
+    + exact I1.
+Qed.
+
+Lemma cli_close_net_out c : out_inv c -> out_inv (fst (cli_close_net intended c)).
+Proof.
+  intros I. unfold cli_close_net. destruct (negb (c_comm c) && c_hs c); [|exact I].
+  pose proof (sar_out sar_tries c None I) as Ia. destruct (sar intended sar_tries c None) as [[ca ra] oa]. cbn [fst] in Ia.
+  pose proof (next_fate_out (c_fates ca) ca [] Ia) as Ib. destruct (next_fate intended (c_fates ca) ca []) as [[cb f] ob]. cbn [fst] in Ib.
+  destruct f; try exact Ib.
+  - pose proof (srv_close_request_out cb true Ib) as T. destruct (srv_close_request intended cb true) as [[cc ec] oc]. exact T.
+  - pose proof (srv_close_request_out cb false Ib) as T. destruct (srv_close_request intended cb false) as [[cc ec] oc]. exact T.
+Qed.
+
+Lemma cli_close_out c : out_inv c -> out_inv (fst (cli_close intended c)).
+Proof.
+  intros I. rewrite cli_close_eq. cbn zeta. cbn [fst]. pose proof (cli_close_net_out c I) as (A & B & C & D).
+  unfold out_inv; cbn. split; [apply o_close_inv, A|]. split; [exact B|]. split; [apply o_close_closed|exact D].
+Qed.
+
+Lemma cli_poll_out c up : out_inv c -> out_inv (fst (cli_poll intended c up)).
+Proof.
+  intros I. unfold cli_poll. destruct (c_comm c || negb (c_hs c)); [exact I|].
+  pose proof (sar_out sar_tries c up I) as I1. destruct (sar intended sar_tries c up) as [[c1 r] o1]. cbn [fst] in I1.
+  destruct (poll_react (c_cnt c1) (c_last c1) r) as [[cnt last] cl].
+  assert (I2 : out_inv (set_poll c1 cnt last)) by (eapply out_inv_same; [exact I1|unfold same_out; cbn; auto]).
+  destruct cl; [|exact I2]. pose proof (cli_close_out _ I2) as T. destruct (cli_close intended (set_poll c1 cnt last)). exact T.
+Qed.
+
+Lemma s_write_out c d : out_inv c -> out_inv (fst (s_write c d)).
+Proof.
+  intros I. unfold s_write. destruct (o_parked (s_out c)); [exact I|]. destruct (s_closed c); [exact I|].
+  pose proof (o_write_inv (s_out c) d None) as T. pose proof (o_write_closed (s_out c) d None) as Cc.
+  destruct (o_write (s_out c) d None) as [o r]. cbn [fst] in *. destruct I as (A & B & C & D).
+  unfold out_inv; cbn. split; [exact A|]. split; [apply T, B|]. split; [exact C|congruence].
+Qed.
+
+Lemma srv_ack_out c own : out_inv c -> out_inv (fst (fst (srv_ack c own))).
+Proof.
+  intros I. unfold srv_ack. destruct (validate (s_slot c) own); [exact I|].
+  pose proof (o_ack_inv (s_out c)) as T. pose proof (o_ack_closed (s_out c)) as Cc.
+  destruct (o_ack (s_out c)) as [o w]. cbn [fst] in *. destruct I as (A & B & C & D).
+  unfold out_inv; cbn. split; [exact A|]. split; [apply T, B|]. split; [exact C|congruence].
+Qed.
+
+Lemma step_out c o : out_inv c -> out_inv (fst (step intended c o)).
+Proof.
+  intros I. destruct o; cbn [step].
+  - destruct (q_append (c_in c) d). eapply out_inv_same; [exact I|unfold same_out; cbn; auto].
+  - pose proof (srv_packet_same c true (Some d)) as S. destruct (srv_packet c true (Some d)) as [[c1 e] os]. exact (out_inv_same _ _ I S).
+  - unfold c_read. destruct (q_parked (c_in c)); [exact I|].
+    match goal with |- context [if ?b then _ else _] => destruct b end; [exact I|]. destruct (q_read (c_in c) n).
+    eapply out_inv_same; [exact I|unfold same_out; cbn; auto].
+  - unfold s_read. destruct (q_parked (s_in c)); [exact I|].
+    match goal with |- context [if ?b then _ else _] => destruct b end; [exact I|]. destruct (q_read (s_in c) n).
+    eapply out_inv_same; [exact I|unfold same_out; cbn; auto].
+  - pose proof (cli_close_out c I) as T. destruct (cli_close intended c). exact T.
+  - pose proof (srv_close_connection_out c I) as T. destruct (srv_close_connection intended c). exact T.
+  - pose proof (srv_close_request_out c true I) as T. destruct (srv_close_request intended c true) as [[c1 e] os]. exact T.
+  - pose proof (srv_expire_out c I) as T. destruct (srv_expire intended c). exact T.
+  - cbn [fst]. apply srv_forget_out, I.
+  - exact I.
+  - pose proof (s_write_out c d I) as T. destruct (s_write c d). exact T.
+  - cbn [fst]. destruct I as (A & B & C & D). unfold out_inv; cbn. split; [exact A|]. split; [|auto].
+    destruct B as [B0 BP]. split; [apply o_enqueue_inv0, B0|]. cbn. intros X. split; [reflexivity|exact (proj2 (BP X))].
+  - pose proof (srv_ack_out c true I) as T. destruct (srv_ack c true) as [[c1 e] os]. exact T.
+  - pose proof (o_write_inv (c_out c) d (Some sent)) as T. pose proof (o_write_closed (c_out c) d (Some sent)) as Cc.
+    destruct (o_write (c_out c) d (Some sent)) as [oo r]. cbn [fst] in *. destruct I as (A & B & C & D).
+    unfold out_inv; cbn. split; [apply T, A|]. split; [exact B|]. split; [congruence|exact D].
+  - pose proof (o_ack_inv (c_out c)) as T. pose proof (o_ack_closed (c_out c)) as Cc.
+    destruct (o_ack (c_out c)) as [oo w]. cbn [fst] in *. destruct I as (A & B & C & D).
+    unfold out_inv; cbn. split; [apply T, A|]. split; [exact B|]. split; [congruence|exact D].
+  - apply cli_poll_out, I.
+Qed.
+
+Lemma run_out ops : forall c, out_inv c -> out_inv (fst (run intended c ops)).
+Proof.
+  induction ops as [|o r IH]; intros c I; cbn [run fst]; auto.
+  pose proof (step_out c o I) as T. destruct (step intended c o) as [c1 o1]. cbn [fst] in T.
+  specialize (IH c1 T). destruct (run intended c1 r) as [c2 o2]. exact IH.
+Qed.
+
+Lemma reach_out c : reach c -> out_inv c.
+Proof. intros (hs & fs & ops & ->). apply run_out, out_inv_init. Qed.
+
+(* ---- every chunk ever queued on an end is either acknowledged or still in the queue, in order *)
+Lemma conn_out_accounting c : reach c ->
+  o_sent (c_out c) = o_ackd (c_out c) ++ o_q (c_out c) /\ o_sent (s_out c) = o_ackd (s_out c) ++ o_q (s_out c).
+Proof. intros R. destruct (reach_out c R) as (((A & _) & _) & ((B & _) & _) & _). auto. Qed.
+
+(* ---- once an end is closed, no writer is parked on it and no Write parks any more *)
+Lemma client_closed_no_writer c : reach c -> c_comm c = true ->
+  o_parked (c_out c) = None /\ forall d sent b, snd (o_write (c_out c) d sent) <> WBlock b /\ snd (o_write (c_out c) d sent) <> WBusy.
+Proof.
+  intros R C. destruct (reach_out c R) as (A & B & Cc & D). rewrite <- Cc in C.
+  pose proof (closed_out_queue_not_parked _ A C) as P. split; [exact P|]. intros d sent b. split; [apply o_write_closed_no_block, C|].
+  unfold o_write. rewrite P. destruct (o_wait (c_out c)); [|cbn; discriminate|cbn; discriminate].
+  unfold o_fill. destruct d; [unfold o_final; destruct (o_wait (o_check (c_out c))); cbn; discriminate|].
+  destruct sent as [[|]|]; [|cbn; discriminate|]; unfold o_final; match goal with |- context [o_wait ?x] => destruct (o_wait x) end; cbn; discriminate.
+Qed.
+
+Lemma server_closed_no_writer c : reach c -> live (s_slot c) = false ->
+  o_parked (s_out c) = None /\ forall d b, snd (s_write c d) <> WBlock b /\ snd (s_write c d) <> WBusy.
+Proof.
+  intros R L. destruct (reach_out c R) as (A & B & Cc & D). rewrite L in D. cbn in D.
+  pose proof (closed_out_queue_not_parked _ B D) as P. split; [exact P|]. intros d b. unfold s_write. rewrite P.
+  destruct (s_closed c); [cbn; split; discriminate|].
+  pose proof (o_write_closed_no_block (s_out c) d None D b) as NB.
+  destruct (o_write (s_out c) d None) as [o r] eqn:E. cbn [snd] in *. split; [exact NB|].
+  unfold o_write in E. rewrite P in E. destruct (o_wait (s_out c)); [|inversion E; discriminate|inversion E; discriminate].
+  unfold o_fill in E. destruct d; [unfold o_final in E; destruct (o_wait (o_check (s_out c))); inversion E; discriminate|].
+  unfold o_final in E. match type of E with context [o_wait ?x] => destruct (o_wait x) end; inversion E; discriminate.
+Qed.
+
+(* ---- a Write reports success only when everything ever queued on that end has been acknowledged; os.ErrClosed only on a closed queue *)
+Lemma s_write_done c d n : reach c -> snd (s_write c d) = WDone n ->
+  n = List.length d /\ o_q (s_out (fst (s_write c d))) = [] /\ o_sent (s_out (fst (s_write c d))) = o_ackd (s_out (fst (s_write c d))).
+Proof.
+  intros R. destruct (reach_out c R) as (A & B & _). unfold s_write. destruct (o_parked (s_out c)); [cbn; discriminate|].
+  destruct (s_closed c); [cbn; discriminate|].
+  pose proof (o_write_done (s_out c) d None n B) as T. destruct (o_write (s_out c) d None) as [o r]. cbn [fst snd s_out set_sout] in *. exact T.
+Qed.
+
+Lemma s_write_closed_outcome c d n : reach c -> snd (s_write c d) = WClosed n -> live (s_slot c) = false.
+Proof.
+  intros R. pose proof (reach_inv c R) as (_ & _ & _ & _ & I5). destruct (reach_out c R) as (_ & _ & _ & D).
+  unfold s_write. destruct (o_parked (s_out c)); [cbn; discriminate|].
+  destruct (s_closed c) eqn:Sc; [intros _; apply I5; reflexivity|].
+  pose proof (o_write_closed_outcome (s_out c) d None n) as T. destruct (o_write (s_out c) d None) as [o r]. cbn [snd] in *.
+  intros E. specialize (T E). rewrite T in D. symmetry in D. apply negb_true_iff in D. exact D.
+Qed.
+
+Lemma c_out_write_done c d sent n : reach c -> snd (o_write (c_out c) d sent) = WDone n ->
+  n = List.length d /\ o_q (fst (o_write (c_out c) d sent)) = [] /\ o_sent (fst (o_write (c_out c) d sent)) = o_ackd (fst (o_write (c_out c) d sent)).
+Proof. intros R. destruct (reach_out c R) as (A & _). apply o_write_done, A. Qed.
+
+(* ---- a parked writer is released by whatever closes its end: in a reachable state a closed end has none (see client_closed_no_writer,
+   server_closed_no_writer); and the release is a return, never a second park: *)
+Lemma released_writer_returns o : o_parked o <> None -> exists r, snd (o_close o) = Some r /\ forall b, r <> WBlock b.
+Proof. exact (o_close_releases o). Qed.
+
+(* ---- the code before the repair: no out-queue is ever closed *)
+Definition no_out_queue_close : shape :=
+  {| sh_c_eof_drained := true; sh_s_eof_drained := true; sh_cc_closes_q := true; sh_sc_closes_q := true; sh_sweep_closes_q := true;
+     sh_err_identity := true; sh_err_identity_packet := true; sh_cc_closes_out := false; sh_sc_closes_out := false; sh_sweep_closes_out := false |}.
+
+(* a session that is not live, with a writer parked: whatever happens next, under any shape, the writer stays parked as it is *)
+Definition wfrozen (c c' : conn) : Prop := live (s_slot c') = false /\ s_closed c' = s_closed c /\ o_parked (s_out c') = o_parked (s_out c).
+
+Lemma frozen_wfrozen c c' : frozen c c' -> wfrozen c c'.
+Proof. unfold frozen, wfrozen. intros (A & B & C & D). rewrite D. auto. Qed.
+Lemma wfrozen_refl c : live (s_slot c) = false -> wfrozen c c.
+Proof. unfold wfrozen; auto. Qed.
+Lemma wfrozen_trans a b c : wfrozen a b -> wfrozen b c -> wfrozen a c.
+Proof. unfold wfrozen. intros (A1 & A2 & A3) (B1 & B2 & B3). repeat split; congruence. Qed.
+
+Lemma step_wfrozen sh c o : live (s_slot c) = false -> o_parked (s_out c) <> None -> wfrozen c (fst (step sh c o)).
+Proof.
+  intros L P. destruct o; cbn [step].
+  - destruct (q_append (c_in c) d). cbn [fst]. unfold wfrozen; cbn; auto.
+  - destruct (srv_packet_frozen c true (Some d) L) as [e E]. rewrite E. apply wfrozen_refl, L.
+  - unfold c_read. destruct (q_parked (c_in c)); [apply wfrozen_refl, L|].
+    match goal with |- context [if ?b then _ else _] => destruct b end; [apply wfrozen_refl, L|]. destruct (q_read (c_in c) n).
+    cbn [fst]. unfold wfrozen; cbn; auto.
+  - unfold s_read. destruct (q_parked (s_in c)); [apply wfrozen_refl, L|].
+    match goal with |- context [if ?b then _ else _] => destruct b end; [apply wfrozen_refl, L|]. destruct (q_read (s_in c) n).
+    cbn [fst]. unfold wfrozen; cbn; auto.
+  - pose proof (cli_close_frozen sh c L) as [T _]. destruct (cli_close sh c). apply frozen_wfrozen, T.
+  - rewrite srv_close_connection_frozen by exact L. apply wfrozen_refl, L.
+  - destruct (srv_close_request_frozen sh c true L) as [e E]. rewrite E. apply wfrozen_refl, L.
+  - rewrite srv_expire_frozen by exact L. apply wfrozen_refl, L.
+  - cbn [fst]. pose proof (srv_event_frozen sh c SvForget L) as [T _]. apply frozen_wfrozen, T.
+  - apply wfrozen_refl, L.
+  - unfold s_write. destruct (o_parked (s_out c)); [apply wfrozen_refl, L|congruence].
+  - cbn [fst]. unfold wfrozen; cbn; auto.
+  - unfold srv_ack. pose proof (validate_not_live _ true L) as V. destruct (validate (s_slot c) true); [apply wfrozen_refl, L|congruence].
+  - destruct (o_write (c_out c) d (Some sent)). cbn [fst]. unfold wfrozen; cbn; auto.
+  - destruct (o_ack (c_out c)). cbn [fst]. unfold wfrozen; cbn; auto.
+  - apply frozen_wfrozen, cli_poll_frozen, L.
+Qed.
+
+Lemma run_wfrozen sh ops : forall c, live (s_slot c) = false -> o_parked (s_out c) <> None -> wfrozen c (fst (run sh c ops)).
+Proof.
+  induction ops as [|o r IH]; intros c L P; cbn [run fst]; [apply wfrozen_refl, L|].
+  pose proof (step_wfrozen sh c o L P) as F. destruct (step sh c o) as [c1 o1]. cbn [fst] in F.
+  assert (P1 : o_parked (s_out c1) <> None) by (destruct F as (_ & _ & E); rewrite E; exact P).
+  specialize (IH c1 (proj1 F) P1). destruct (run sh c1 r) as [c2 o2]. cbn [fst] in *. eapply wfrozen_trans; eauto.
+Qed.
+
+(* closeConnection / the sweep without u.out.Close(): the writer waiting for its acknowledgement waits for ever *)
+Lemma close_connection_leaves_writer_parked hs fs ops :
+  let c := fst (run no_out_queue_close (init_conn hs fs) ([OSWrite [1; 2; 3; 4; 5]%N; OSClose] ++ ops)) in
+  s_closed c = true /\ live (s_slot c) = false /\ o_parked (s_out c) = Some (WFinal 5).
+Proof.
+  rewrite run_app.
+  set (c0 := fst (run no_out_queue_close (init_conn hs fs) [OSWrite [1; 2; 3; 4; 5]%N; OSClose])).
+  assert (L : live (s_slot c0) = false) by reflexivity.
+  assert (P : o_parked (s_out c0) = Some (WFinal 5)) by reflexivity.
+  assert (C : s_closed c0 = true) by reflexivity.
+  destruct (run_wfrozen no_out_queue_close ops c0 L) as (L1 & E1 & E2); [congruence|].
+  cbn zeta. rewrite E1, E2. auto.
+Qed.
+
+Lemma sweep_leaves_writer_parked hs fs ops :
+  let c := fst (run no_out_queue_close (init_conn hs fs) ([OSWrite [1; 2; 3; 4; 5]%N; OExpire] ++ ops)) in
+  live (s_slot c) = false /\ o_parked (s_out c) = Some (WFinal 5).
+Proof.
+  rewrite run_app.
+  set (c0 := fst (run no_out_queue_close (init_conn hs fs) [OSWrite [1; 2; 3; 4; 5]%N; OExpire])).
+  assert (L : live (s_slot c0) = false) by reflexivity.
+  assert (P : o_parked (s_out c0) = Some (WFinal 5)) by reflexivity.
+  destruct (run_wfrozen no_out_queue_close ops c0 L) as (L1 & E1 & E2); [congruence|].
+  cbn zeta. rewrite E2. auto.
+Qed.
+
+(* the client side: a chunk left queued by a Write whose exchange failed, a second Write parked behind it, Close: the second Write waits
+   for ever (nothing acknowledges the chunk of a closed client: its poll goroutine has ended) *)
+Definition not_client_ack (o : op) : Prop := match o with OCAck => False | _ => True end.
+
+Lemma step_client_writer_parked o : forall c, not_client_ack o -> c_comm c = true -> o_parked (c_out c) <> None ->
+  let c' := fst (step no_out_queue_close c o) in c_comm c' = true /\ c_out c' = c_out c.
+Proof.
+  intros c NA C P. pose proof (step_comm_stable no_out_queue_close c o C) as T. split; [exact T|].
+  destruct o; cbn [step].
+  - destruct (q_append (c_in c) d). reflexivity.
+  - destruct (srv_packet c true (Some d)) as [[c1 e] os] eqn:E. unfold srv_packet in E.
+    destruct (validate (s_slot c) true); [inversion E; reflexivity|]. destruct (q_append (s_in c) d). inversion E. reflexivity.
+  - unfold c_read. destruct (q_parked (c_in c)); [reflexivity|].
+    match goal with |- context [if ?b then _ else _] => destruct b end; [reflexivity|]. destruct (q_read (c_in c) n). reflexivity.
+  - unfold s_read. destruct (q_parked (s_in c)); [reflexivity|].
+    match goal with |- context [if ?b then _ else _] => destruct b end; [reflexivity|]. destruct (q_read (s_in c) n). reflexivity.
+  - unfold cli_close, cli_close_net. rewrite C. cbn [negb andb sh_cc_closes_q sh_cc_closes_out no_out_queue_close].
+    destruct (q_close (c_in c)). reflexivity.
+  - pose proof (srv_close_connection_client no_out_queue_close c) as (_ & _ & _ & X). destruct (srv_close_connection no_out_queue_close c). exact X.
+  - unfold srv_close_request. destruct (validate (s_slot c) true); [reflexivity|].
+    pose proof (srv_close_connection_client no_out_queue_close c) as (_ & _ & _ & X). destruct (srv_close_connection no_out_queue_close c). exact X.
+  - pose proof (srv_expire_client no_out_queue_close c) as (_ & _ & _ & X). destruct (srv_expire no_out_queue_close c). exact X.
+  - cbn [fst]. unfold srv_forget. destruct (s_slot c); reflexivity.
+  - reflexivity.
+  - unfold s_write. destruct (o_parked (s_out c)); [reflexivity|]. destruct (s_closed c); [reflexivity|]. destruct (o_write (s_out c) d None). reflexivity.
+  - reflexivity.
+  - unfold srv_ack. destruct (validate (s_slot c) true); [reflexivity|]. destruct (o_ack (s_out c)). reflexivity.
+  - unfold o_write. destruct (o_parked (c_out c)); [cbn; destruct c; reflexivity|congruence].
+  - cbn in NA. tauto.
+  - unfold cli_poll. rewrite C. reflexivity.
+Qed.
+
+Lemma client_close_leaves_writer_parked hs ops : Forall not_client_ack ops ->
+  let c := fst (run no_out_queue_close (init_conn hs []) ([OCOutWrite [1]%N false; OCOutWrite [2; 3]%N true; OCClose] ++ ops)) in
+  c_comm c = true /\ o_parked (c_out c) = Some (WEntry [2; 3]%N (Some true)).
+Proof.
+  intros NA. rewrite run_app.
+  set (c0 := fst (run no_out_queue_close (init_conn hs []) [OCOutWrite [1]%N false; OCOutWrite [2; 3]%N true; OCClose])).
+  assert (C : c_comm c0 = true) by (destruct hs; reflexivity).
+  assert (P : o_parked (c_out c0) = Some (WEntry [2; 3]%N (Some true))) by (destruct hs; reflexivity).
+  clearbody c0. revert c0 C P. induction ops as [|o r IH]; intros c0 C P; cbn [run fst]; [auto|].
+  inversion NA as [|? ? N1 N2]; subst.
+  destruct (step_client_writer_parked o c0 N1 C) as [C1 E1]; [congruence|].
+  destruct (step no_out_queue_close c0 o) as [c1 o1]. cbn [fst] in *.
+  assert (P1 : o_parked (c_out c1) = Some (WEntry [2; 3]%N (Some true))) by (rewrite E1; exact P).
+  specialize (IH N2 c1 C1 P1). destruct (run no_out_queue_close c1 r) as [c2 o2]. exact IH.
 Qed.
